@@ -282,7 +282,7 @@ inductive LoopRes where
   | done (next : Int) (evs : List Event) (requests : Nat)
   | apiErr
   | outOfFuel
-deriving Repr
+deriving Repr, DecidableEq
 
 /-- `page k start` is the node's answer to the `k`-th page request of this tick, asked with `start`. -/
 def pageLoop (page : Nat → Int → Option Page) (count : Int) : Nat → Nat → Int → List Event → LoopRes
